@@ -201,8 +201,18 @@ def prop(case, ctx):
         ok = True
         why = ''
         if k == 'misc':
-            ok = len(enz.possible_sites(s, rule, exc)) > oa['miscleavage']
-            why = f'has at most {len(enz.possible_sites(s, rule, exc))} missed cleavages'
+            # sites are decided before W>F reassignment: count them on the W form as well
+            forms = {s}
+            for e in entries:
+                w = list(s)
+                for x in e['ids']:
+                    if x.startswith('W2F-') and x[4:].isdigit() and 0 < int(x[4:]) <= len(w) \
+                            and w[int(x[4:]) - 1] == 'F':
+                        w[int(x[4:]) - 1] = 'W'
+                forms.add(''.join(w))
+            nsites = max(len(enz.possible_sites(f, rule, exc)) for f in forms)
+            ok = nsites > oa['miscleavage']
+            why = f'has at most {nsites} missed cleavages'
         elif k == 'minlen':
             ok = len(s) < oa['min_length']
             why = f'length {len(s)} >= {oa["min_length"]}'
